@@ -1,5 +1,7 @@
 import PqlModel.Props.C08
 import PqlModel.Props.C08Full
+import PqlModel.Props.C08Reject
+import PqlModel.Props.C08RejectCx
 #print axioms Pql.C08.C08_split_partition
 #print axioms Pql.C08.C08_splitSemi_partition
 #print axioms Pql.C08.C08_endSplit_iff
@@ -15,3 +17,24 @@ import PqlModel.Props.C08Full
 #print axioms Pql.C08.C08_accounted_parse
 #print axioms Pql.C08.C08_accounted_parse_zip
 #print axioms Pql.C08.C08_accounted_unrestricted_false
+#print axioms Pql.Reject.C08_error_token_rejected
+#print axioms Pql.Reject.C08_error_token_not_compiled
+#print axioms Pql.Reject.unparse_balanced
+#print axioms Pql.Reject.C08_unbalanced_rejected
+#print axioms Pql.Reject.unparse_last_token
+#print axioms Pql.Reject.C08_dangling_operator_rejected
+#print axioms Pql.Reject.C08_last_keyword_is_name
+#print axioms Pql.Reject.C08_dangling_inside_rejected
+#print axioms Pql.Reject.C08_whole_piece_is_one_statement
+#print axioms Pql.Reject.C08_adjacent_rejected
+#print axioms Pql.Reject.C08_two_operands_rejected
+#print axioms Pql.Reject.C08_pipe_needs_operator
+#print axioms Pql.Reject.C08_double_pipe_rejected
+#print axioms Pql.Reject.C08_count_argument_rejected
+#print axioms Pql.Reject.C08_asc_desc_rejected
+#print axioms Pql.Reject.C08_missing_argument_rejected
+#print axioms Pql.Reject.C08_operator_keyword_alone_rejected
+#print axioms Pql.Reject.C08_missing_argument_inside_rejected
+#print axioms Pql.Reject.C08_join_without_on_rejected
+#print axioms Pql.Reject.C08_call_only_comma_rejected
+#print axioms Pql.Reject.C08_in_empty_list_rejected
